@@ -332,24 +332,7 @@ pub fn check_c10(bytes: &[u8], _s: &NormalizerSettings, ms: &CharsetMatches) -> 
                 out.push(v("C10", format!("{} is tied to {:?} but lists {:?}", m.encoding(), t, langs)));
             }
         }
-        let mpl = m.most_probably_language();
-        let expect = if let Some(l) = langs.first() {
-            *l
-        } else if m.suitable_encodings().contains(&"ascii".to_string()) {
-            &charset_normalizer_rs::entity::Language::English
-        } else if let Some(t) = tied.first() {
-            *t
-        } else if is_multi_byte_encoding(m.encoding()) {
-            &charset_normalizer_rs::entity::Language::Unknown
-        } else {
-            hooks::encoding_languages(m.encoding().to_string())
-                .first()
-                .copied()
-                .unwrap_or(&charset_normalizer_rs::entity::Language::Unknown)
-        };
-        if mpl != expect {
-            out.push(v("C10", format!("{}: most probable language {:?}, expected {:?}", m.encoding(), mpl, expect)));
-        }
+        out.extend(check_mpl_one(m));
         // unicode ranges: sorted, duplicate free, union of the per-character ranges
         let ranges = m.unicode_ranges();
         let mut exp: Vec<String> = vec![];
@@ -381,6 +364,36 @@ pub fn check_c10(bytes: &[u8], _s: &NormalizerSettings, ms: &CharsetMatches) -> 
         }
     }
     out
+}
+
+/// C10, most probable language of one match, by the cases the property states
+pub fn check_mpl_one(m: &CharsetMatch) -> Vec<Found> {
+    let mut out = vec![];
+    let langs = m.languages();
+    let tied = hooks::mb_encoding_languages(m.encoding());
+    let mpl = m.most_probably_language();
+    let expect = if let Some(l) = langs.first() {
+        *l
+    } else if m.suitable_encodings().contains(&"ascii".to_string()) {
+        &charset_normalizer_rs::entity::Language::English
+    } else if let Some(t) = tied.first() {
+        *t
+    } else if is_multi_byte_encoding(m.encoding()) {
+        &charset_normalizer_rs::entity::Language::Unknown
+    } else {
+        hooks::encoding_languages(m.encoding().to_string())
+        .first()
+        .copied()
+        .unwrap_or(&charset_normalizer_rs::entity::Language::Unknown)
+    };
+    if mpl != expect {
+        out.push(v("C10", format!("{}: most probable language {:?}, expected {:?}", m.encoding(), mpl, expect)));
+    }
+    out
+}
+
+pub fn check_mpl(ms: &CharsetMatches) -> Vec<Found> {
+    ms.iter().flat_map(|m| check_mpl_one(m)).collect()
 }
 
 /// C08 on a real container: get_best is the first element; a dominant match is first,
